@@ -91,6 +91,7 @@ func (m *Mutex) Unlock() {
 	vrace.Release(m.h.tokA())
 	m.locked = false
 	vrt.Touch(m.h.id, true, 3)
+	vrt.Released("mutex.unlocked", m.h.id)
 }
 
 // RWMutex (writer preferring, like the runtime's) -----------------------------
@@ -150,6 +151,7 @@ func (m *RWMutex) Unlock() {
 	vrace.Release(m.h.tokA())
 	m.announced, m.writer = false, false
 	vrt.Touch(m.h.id, true, 7)
+	vrt.Released("rw.unlocked", m.h.id)
 }
 
 func (m *RWMutex) RLock() {
@@ -189,6 +191,7 @@ func (m *RWMutex) RUnlock() {
 	vrace.ReleaseMerge(m.h.tokB())
 	m.readers--
 	vrt.Touch(m.h.id, true, 10)
+	vrt.Released("rw.runlocked", m.h.id)
 }
 
 type rlocker RWMutex
